@@ -8,14 +8,17 @@ OBL = []
 
 MODPATH = {
     "ast.rs": "ast", "ast__sim.rs": "ast::sim", "asm.rs": "asm", "asm__encoding.rs": "asm::encoding", "err.rs": "err",
-    "parse.rs": "parse", "parse__lex.rs": "parse::lex", "sim.rs": "sim", "sim__mem.rs": "sim::mem", "sim__frame.rs": "sim::frame", "sim__device.rs": "sim::device",
+    "parse.rs": "parse", "parse__lex.rs": "parse::lex", "sim.rs": "sim", "sim__mem.rs": "sim::mem", "sim__mem__copy.rs": "sim::mem", "sim__frame.rs": "sim::frame", "sim__device.rs": "sim::device",
     "sim__device__timer.rs": "sim::device::timer", "sim__device__keyboard.rs": "sim::device::keyboard", "sim__device__display.rs": "sim::device::display", "sim__debug.rs": "sim::debug", "sim__observer.rs": "sim::observer",
 }
 
 
+MODNAME = {"sim__mem__copy.rs": "verif_kani_copy"}
+
+
 def K(id, module, harness, props, functions, kind="complete", bound=None, tier="quick", args=None, timeout=900,
       stubs=None, assumptions=None, replay=None, group="", unwindset=None, exploratory=False, canary=False):
-    o = {"id": id, "engine": "kani", "module": module, "harness": f"{MODPATH[module]}::verif_kani::{harness}",
+    o = {"id": id, "engine": "kani", "module": module, "harness": f"{MODPATH[module]}::{MODNAME.get(module, 'verif_kani')}::{harness}",
          "properties": props, "functions": functions, "kind": kind, "bound": bound, "tier": tier,
          "cbmc_args": list(args or []), "timeout_s": timeout, "stubs": stubs or [], "assumptions": assumptions or [],
          "replay": replay, "group": group}
@@ -63,6 +66,12 @@ K("K.mem.word_leaf", "sim__mem.rs", "word_leaf_contracts", ["C14", "C16"],
   ["Word::new_init", "Word::new_uninit", "Word::get", "Word::get_if_init", "Word::set", "Word::set_if_init", "Word::is_init",
    "Word::clear_init", "<Word as From<u16>>::from", "<Word as From<i16>>::from"], replay="native")
 K("K.mem.regfile_index", "sim__mem.rs", "regfile_index_contract", ["C16", "C08"], ["<RegFile as Index<Reg>>::index", "<RegFile as IndexMut<Reg>>::index_mut"], replay="native")
+
+for h, b in (("copy_block_user_ssns", "start x3000, shape S S N S"), ("copy_block_user_nnss", "start x4321, shape N N S S"), ("copy_block_single", "start x0000, one initialized word"),
+             ("copy_block_end_of_memory", "start xFFFE, shape S N (ends exactly at x10000)"), ("copy_block_wrap_init", "start xFFFE, four initialized words (wraps to x0000)"),
+             ("copy_block_wrap_uninit", "start xFFFF, shape N N S (wraps to x0000)")):
+    K(f"K.mem.{h}", "sim__mem__copy.rs", h, ["C29", "C19"], ["MemArray::copy_obj_block"], kind="bounded", bound=b + "; word values, previous memory and probe address symbolic",
+      args=UF, group="copy", timeout=900)
 
 # ------------------------------------------------------------------------------------------------ sim/frame.rs
 RS = "std::hash::RandomState::new=fixed keys (hash keys do not affect map semantics)"
@@ -258,6 +267,7 @@ PROPS = {
  "C26": ("proof", "Span container: every ErrSpan constructible through its public From/Extend impls (incl. the empty list both link errors carry) supports first() and iter() without panic. Call sites assumed."),
  "C27": ("proof", "Depth delta is part of the ISA reference of every step (L2); push/pop leaf contract; debug frames bounded (<= 2 parameters)."),
  "C28": ("proof", "Observer calls exact in read_mem/write_mem (L1), every program access tracked and the access set is the ISA's (L2); observer map bounded (2 updates)."),
+ "C29": ("other", "Partial, bounded: MemArray::copy_obj_block (the function that places one block of the image) sets exactly the block's initialized words, marks its reserved words uninitialized and leaves every other word unchanged, incl. blocks that wrap past xFFFF -- for concrete start addresses and shapes (6 obligations), values / old memory / probe symbolic. load_obj_file's loop over blocks, the external-symbol check and 'a new simulator holds the OS image' are not covered."),
  "C30": ("proof", "reset against new_with_mcr's contract (recording stub): one fresh machine with same flags and MCR handle, breakpoints / register map / devices moved across, io_reset once."),
  "C32": ("proof", "Port-table representation invariant at symbolic witness ports: dispatch reaches the owner exactly once; add/remove/replace preserve it (device counts bounded: <= 5 slots, <= 2 requested ports); internal registers win over devices (L1); mmap/munmap."),
  "C34": ("proof", "Unbounded (Verus): countdown step contract on the verbatim bodies + interval/first-interrupt lemmas by induction; SampleRange::new leaf (Kani)."),
